@@ -83,7 +83,13 @@ def gen(rng, i):
         #                  together with 1e-4 data the kernels' fixed-point multipliers underflow (a limit of the runtime, cf. D25)
     data = gm.random_inputs(mb, rng, n=1, scale=rng.choice(scales))
     cmds = [{"k": "add", "regex": ".*", "operation": "*", "cfg": cfg, "alg": "min_max_uniform_quantize"}]
-    return fp.Case(mb, info, cmds=cmds, data=data, desc=[("*", cfg["act"]["bits"], cfg["weight"]["bits"])])
+    case = fp.Case(mb, info, cmds=cmds, data=data, desc=[("*", cfg["act"]["bits"], cfg["weight"]["bits"])])
+    if rng.random() < 0.15:
+        # an earlier from-scratch calibration session on the same Quantizer with data of another amplitude (a dry run): the session
+        # that counts starts from scratch and must calibrate on ITS data only
+        case.dry_data = gm.random_inputs(mb, rng, n=1, scale=rng.choice([0.02, 20.0]))
+        info["tags"].add("dry_run_calibration_first")
+    return case
 
 
 def run(ctx):
